@@ -554,4 +554,18 @@ example : verifierAccepts largeInteger largeInteger = true ∧ proverAnswersHone
 example : (runChunks [(1, 100), (2, 200)] [(2, 8, 0, 2), (1, 7, 1, 2), (2, 8, 0, 2), (1, 7, 0, 2), (2, 8, 1, 2)]).stored
     = [(7, 100), (8, 200)] := by decide
 
+
+/-- the verifier's report for a list of reference values (repeats allowed, any order): as many rows as references, and
+    row i is the i-th reference value with ITS OWN score — so in a complete round every listed value with another
+    profile is reported with 0 and the attested one with 1 − 2⁻ⁿ, wherever and however often it is listed -/
+theorem report_rows_aligned {α : Type} (refs : List α) (score : α → Rat) :
+    (reportRows refs score).length = refs.length ∧
+      ∀ i (h : i < refs.length), (reportRows refs score)[i]? = some (refs[i], score refs[i]) := by
+  refine ⟨by simp [reportRows], ?_⟩
+  intro i h
+  simp [reportRows, List.getElem?_zip_eq_some, h]
+
+example : reportRows [1, 1, 2] (fun v => if v = 1 then (7 : Rat) else 0) = [(1, 7), (1, 7), (2, 0)] := by
+  simp [reportRows]
+
 end Ipv8.C18
